@@ -52,6 +52,9 @@ type FuncResult struct {
 
 var solveSlots = make(chan struct{}, 12)
 
+// thorough tier: obligations that took more than 0.5 s are re-run with another solver seed
+var seedProbes, seedUnstable int32
+
 type CheckOpts struct {
 	Prop     string
 	Tier     string
@@ -293,6 +296,14 @@ func solveFunction(fr *FuncResult, opts CheckOpts) {
 					}
 				}
 			}
+			if opts.All && o.Res.Status == "unsat" && o.Res.Time > 0.5 {
+				// stability probe (thorough tier): the same query with another random seed
+				r := solveWith([]backend{z3Reseeded}, ex.env.d, asserts, nil, 60, false, o.Site+" @"+o.Path+" [reseeded]")
+				if r.Status != "unsat" {
+					atomic.AddInt32(&seedUnstable, 1)
+				}
+				atomic.AddInt32(&seedProbes, 1)
+			}
 			if !opts.Fast && o.Res.Status != "unsat" && o.Res.Status != "sat" && len(flattenAnd(o.Goal)) > 1 {
 				// conjunct-wise: every conjunct of the goal on its own
 				allOK := true
@@ -513,6 +524,9 @@ type Evidence struct {
 func runCheck(repo, verifDir string, opts CheckOpts, overlay map[string][]byte, writeEvidence bool) int {
 	t0 := time.Now()
 	cexSearches = 0
+	if overlay == nil {
+		seedProbes, seedUnstable = 0, 0
+	}
 	// per-run caches that refer to the loaded program (a long-running selftest would otherwise keep every
 	// program it ever loaded alive)
 	loopCache = map[*ssa.Function]*loopInfo{}
@@ -687,7 +701,7 @@ func runCheck(repo, verifDir string, opts CheckOpts, overlay map[string][]byte, 
 	// overlay) guards the generator: every one must raise a violation.  Recorded in the evidence and
 	// printed; it does not change the exit status (that is about the property, not about the generator).
 	var corpus map[string]any
-	if opts.Tier == "thorough" && overlay == nil && len(violations) == 0 {
+	if opts.Tier == "thorough" && overlay == nil && len(violations) == 0 && os.Getenv("GOCV_NO_CORPUS") == "" {
 		corpus = runCorpus(repo, verifDir, prop)
 		fmt.Printf("%s: must-fail corpus: %v seeded changes, %v detected, %v outside the claimed scope, %v not applicable to this tree, missed: %v\n",
 			prop, corpus["total"], corpus["detected"], corpus["out_of_scope"], corpus["skipped"], corpus["missed"])
@@ -717,6 +731,9 @@ func runCheck(repo, verifDir string, opts CheckOpts, overlay map[string][]byte, 
 		}
 		if corpus != nil {
 			ev.Coverage["must_fail_corpus"] = corpus
+		}
+		if opts.All {
+			ev.Coverage["seed_stability_probe"] = map[string]any{"queries_over_0.5s_rerun_with_another_seed": seedProbes, "not_discharged_with_the_other_seed": seedUnstable}
 		}
 		if len(bounded) > 0 {
 			// part of the property rests on bounded exploration on this tree: not a proof
